@@ -57,7 +57,7 @@ inline void genMembers(Plan& p, Rng& r, size_t maxMembers, size_t maxLen, bool a
 		Line m = mkline("world", "member");
 		uint64_t k = r.below(10);
 		uint16_t kind = k < 6 ? 0x100 : (k < 8 && allowLzh) ? 0x103 : k < 9 ? 0x101 : 0x102;
-		uint64_t len = r.chance(1, 5) ? r.below(4) : r.below(maxLen);
+		uint64_t len = r.chance(1, 5) ? r.below(4) : (maxLen >= 900 && r.chance(1, 12)) ? boundarySize(r, maxLen >= 3000 ? 14 : 12) : r.below(maxLen);
 		m.set("name", quoteToken(nm)).set("cseed", hex64(r.next())).set("len", len).set("kind", hex64(kind));
 		if (kind == 0x103) m.set("tseed", hex64(r.next())).set("lowentropy", r.below(2));
 		if (kind == 0x101 || kind == 0x102) m.set("usize", r.below(100000));
